@@ -1,10 +1,395 @@
-/- Props/C09.lean — placeholder while the proofs are being written. -/
+/-
+Props/C09.lean — property C09: over-sampling partitions pixels uniformly and bins by exact per-pixel
+means; the decorator returns exactly this binned result; the iterative scheme returns, per pixel, the
+binned value at the first sub-size of the schedule agreeing with the previous level, else the last.
+
+All theorems are about the `Impl` layer of Model/OverSample.lean (the loop transliterations the
+driver executes against the Python) and quantify over every mask, geometry (anisotropic pixel
+scales, any origin), per-pixel sub-size map, user function `f : α × α → α`, thresholds and schedule,
+over any field `α` (ordered where the agreement rule is involved) — no bound on any size.
+-/
 import Model.OverSample
+import Proofs.OverSampleBridge
 
 open Model
 
 namespace C09
 
-theorem placeholder_expand_int (n s : Nat) : (Impl.SubSpec.int s).expand n = List.replicate n s := rfl
+section field
+variable {α : Type} [Field α]
+
+/-! ## (a) the over-sampled grid -/
+
+/-- (a) `grid_2d_slim_over_sampled_via_mask_from` returns, slim pixel by slim pixel (row-major order
+    of the unmasked pixels, index `k`), then `y₁` (top to bottom), then `x₁` (left to right), the
+    `sub_k²` points `(P_y + s_y/2 − (y₁+½)·s_y/sub_k,  P_x − s_x/2 + (x₁+½)·s_x/sub_k)` where `P` is
+    the pixel's centre (`Spec.overSampledGrid` is literally this comprehension). -/
+theorem a_grid_eq_partition_centres (m : Mask) (sub : List Nat) (g : Geom α) :
+    Impl.overSampledGrid m sub g
+      = ((Spec.unmaskedPixels m).zipIdx).flatMap fun pk =>
+          (pixels (sub.getD pk.2 0) (sub.getD pk.2 0)).map fun q =>
+            ((Spec.pixelCentre m.h m.w g pk.1).1 + g.sy / 2
+                - ((q.1 : α) + 1 / 2) * g.sy / (sub.getD pk.2 0 : α),
+             (Spec.pixelCentre m.h m.w g pk.1).2 - g.sx / 2
+                + ((q.2 : α) + 1 / 2) * g.sx / (sub.getD pk.2 0 : α)) := by
+  rw [overSampledGrid_eq]; rfl
+
+/-- (a) the pixel centre used above is the scaled coordinate of the pixel:
+    `(o_y + ((H−1)/2 − y)·s_y,  o_x + (x − (W−1)/2)·s_x)` (non-zero pixel scales). -/
+theorem a_pixel_centre (h w : Nat) (g : Geom α) (p : Nat × Nat) (hsy : g.sy ≠ 0) (hsx : g.sx ≠ 0) :
+    Spec.pixelCentre h w g p
+      = (g.oy + (((h : α) - 1) / 2 - (p.1 : α)) * g.sy, g.ox + ((p.2 : α) - ((w : α) - 1) / 2) * g.sx) := by
+  unfold Spec.pixelCentre
+  ext <;> (simp only; field_simp; ring)
+
+/-- (a) these points are the centres of a uniform `s×s` partition of the pixel's square
+    `[P_y − s_y/2, P_y + s_y/2] × [P_x − s_x/2, P_x + s_x/2]`: with row edges
+    `top i = P_y + s_y/2 − i·s_y/s` and column edges `left i = P_x − s_x/2 + i·s_x/s` (equally
+    spaced, `top 0` / `left 0` the pixel's top / left edge, `top s` / `left s` its bottom / right
+    edge), point `(y₁,x₁)` is the midpoint of cell `[top (y₁+1), top y₁] × [left x₁, left (x₁+1)]`. -/
+theorem a_subcentre_is_cell_midpoint [CharZero α] (g : Geom α) (P : α × α) (s : Nat) (hs : s ≠ 0)
+    (q : Nat × Nat) :
+    let top : Nat → α := fun i => P.1 + g.sy / 2 - (i : α) * g.sy / (s : α)
+    let left : Nat → α := fun i => P.2 - g.sx / 2 + (i : α) * g.sx / (s : α)
+    Spec.subCentre g P s q = ((top q.1 + top (q.1 + 1)) / 2, (left q.2 + left (q.2 + 1)) / 2)
+    ∧ top 0 = P.1 + g.sy / 2 ∧ top s = P.1 - g.sy / 2
+    ∧ left 0 = P.2 - g.sx / 2 ∧ left s = P.2 + g.sx / 2 := by
+  have hs' : (s : α) ≠ 0 := Nat.cast_ne_zero.mpr hs
+  refine ⟨?_, ?_, ?_, ?_, ?_⟩
+  · unfold Spec.subCentre
+    ext <;> (simp only; push_cast; field_simp; ring)
+  · simp
+  · simp only; field_simp; ring
+  · simp
+  · simp only; field_simp; ring
+
+/-- (a) the grid holds `sub_k²` points per unmasked pixel: its length is `Σ_k sub_k²`, and pixel
+    `k`'s points start at offset `Σ_{j<k} sub_j²`. -/
+theorem a_grid_length_and_blocks (m : Mask) (sub : List Nat) (g : Geom α) :
+    (Impl.overSampledGrid m sub g).length = Spec.offset sub (Spec.unmaskedPixels m).length
+    ∧ ∀ k j, k < (Spec.unmaskedPixels m).length → j < sub.getD k 0 * sub.getD k 0 →
+        (Impl.overSampledGrid m sub g)[Spec.offset sub k + j]?
+          = (Spec.subCentres g
+              (Spec.pixelCentre m.h m.w g ((Spec.unmaskedPixels m).getD k (0, 0)))
+              (sub.getD k 0))[j]? := by
+  rw [overSampledGrid_eq]
+  unfold Spec.overSampledGrid Spec.slimPixels
+  rw [zipIdx_flatMap_range _ (0, 0), offset_eq_offs]
+  have hB : ∀ k, (Spec.subCentres g
+      (Spec.pixelCentre m.h m.w g ((Spec.unmaskedPixels m).getD k (0, 0), 0 + k).1)
+      (sub.getD ((Spec.unmaskedPixels m).getD k (0, 0), 0 + k).2 0)).length
+        = (fun j => sub.getD j 0 * sub.getD j 0) k := by
+    intro k; simp [subCentres_length]
+  refine ⟨flatMap_range_length _ _ hB _, ?_⟩
+  intro k j hk hj
+  rw [flatMap_range_get _ _ hB _ k j hk hj]
+  simp
+
+/-! ## (b) the sub-pixel → pixel index table -/
+
+/-- (b) `slim_for_sub_slim` is each slim index `k` repeated `sub_k²` times, in order. -/
+theorem b_slimForSubSlim (m : Mask) (sub : List Nat) :
+    Impl.slimForSubSlim m sub
+      = (List.range (Spec.unmaskedPixels m).length).flatMap fun k =>
+          List.replicate (sub.getD k 0 * sub.getD k 0) k :=
+  slimForSubSlim_eq m sub
+
+/-- (b) entry `Σ_{j<k} sub_j² + j` (`j < sub_k²`) of `slim_for_sub_slim` is `k` — the same blocks
+    as the grid's — and its total length is `Σ sub²`. -/
+theorem b_slimForSubSlim_blocks (m : Mask) (sub : List Nat) :
+    (Impl.slimForSubSlim m sub).length = Spec.offset sub (Spec.unmaskedPixels m).length
+    ∧ ∀ k j, k < (Spec.unmaskedPixels m).length → j < sub.getD k 0 * sub.getD k 0 →
+        (Impl.slimForSubSlim m sub)[Spec.offset sub k + j]? = some k := by
+  rw [slimForSubSlim_eq, Spec.slimForSubSlim, offset_eq_offs]
+  have hB : ∀ k, (List.replicate (sub.getD k 0 * sub.getD k 0) k).length
+      = (fun j => sub.getD j 0 * sub.getD j 0) k := by intro k; simp
+  refine ⟨flatMap_range_length _ _ hB _, ?_⟩
+  intro k j hk hj
+  rw [flatMap_range_get _ _ hB _ k j hk hj, List.getElem?_eq_getElem (by simpa using hj)]
+  simp
+
+/-- (b') `sub_mask_native_for_sub_mask_slim`: sub-pixel `(y₁,x₁)` of pixel `(y,x)` has native
+    sub-index `(y·sub + y₁, x·sub + x₁)`, same ordering. -/
+theorem b_subNativeForSubSlim (m : Mask) (sub : List Nat) :
+    Impl.subNativeForSubSlim m sub
+      = ((Spec.unmaskedPixels m).zipIdx).flatMap fun pk =>
+          (pixels (sub.getD pk.2 0) (sub.getD pk.2 0)).map fun q =>
+            (pk.1.1 * sub.getD pk.2 0 + q.1, pk.1.2 * sub.getD pk.2 0 + q.2) :=
+  subNativeForSubSlim_eq m sub
+
+/-! ## (c) binning -/
+
+/-- (c) `binned_array_2d_from`: entry `k` is the arithmetic mean of pixel `k`'s own `sub_k²`
+    sub-values (the block starting at `Σ_{j<k} sub_j²`). -/
+theorem c_binned_is_mean (m : Mask) (sub : List Nat) (a : List α) :
+    Impl.binned m sub a
+      = (List.range (Spec.unmaskedPixels m).length).map fun k =>
+          ((List.range (sub.getD k 0 * sub.getD k 0)).map fun j =>
+              a.getD (Spec.offset sub k + j) 0).sum
+            / ((sub.getD k 0 * sub.getD k 0 : Nat) : α) :=
+  binned_eq_mean m sub a
+
+/-- (c) for every user function `f`: evaluating on the over-sampled grid and binning
+    (`array_via_func_from`) gives for pixel `k` the mean of `f` over that pixel's own `sub_k²`
+    sub-centres. -/
+theorem c_via_func_is_cell_mean (f : α × α → α) (m : Mask) (sub : List Nat) (g : Geom α) :
+    Impl.arrayViaFunc f m sub g
+      = ((Spec.unmaskedPixels m).zipIdx).map fun pk =>
+          ((Spec.subCentres g (Spec.pixelCentre m.h m.w g pk.1) (sub.getD pk.2 0)).map f).sum
+            / ((sub.getD pk.2 0 * sub.getD pk.2 0 : Nat) : α) := by
+  rw [arrayViaFunc_eq]
+  unfold Spec.cellMean Spec.slimPixels
+  simp only [foldl_add_eq_sum]
+
+/-- (c) constants are reproduced exactly (sub-sizes ≥ 1, characteristic 0). -/
+theorem c_constant_reproduced [CharZero α] (c : α) (m : Mask) (sub : List Nat) (g : Geom α)
+    (hsub : ∀ k, k < (Spec.unmaskedPixels m).length → sub.getD k 0 ≠ 0) :
+    Impl.arrayViaFunc (fun _ => c) m sub g = List.replicate (Spec.unmaskedPixels m).length c := by
+  rw [arrayViaFunc_eq, Spec.slimPixels, zipIdx_map_range _ (0, 0)]
+  apply List.ext_getElem
+  · simp
+  · intro k h1 h2
+    have hk : k < (Spec.unmaskedPixels m).length := by simpa using h1
+    simp only [List.getElem_map, List.getElem_range, List.getElem_replicate, Nat.zero_add]
+    exact cellMean_const g _ _ c (hsub k hk)
+
+/-- (c) every affine function of position `c₀ + c₁·y + c₂·x` is reproduced exactly at the pixel
+    centres: binning its over-sampled evaluation equals evaluating it on the pixel-centre grid
+    (`mask.derive_grid.unmasked`), for every mask, geometry and sub-size map with entries ≥ 1. -/
+theorem c_affine_reproduced [CharZero α] (c0 c1 c2 : α) (m : Mask) (sub : List Nat) (g : Geom α)
+    (hsub : ∀ k, k < (Spec.unmaskedPixels m).length → sub.getD k 0 ≠ 0) :
+    Impl.arrayViaFunc (fun p => c0 + c1 * p.1 + c2 * p.2) m sub g
+      = (Impl.unmaskedGrid m g).map fun p => c0 + c1 * p.1 + c2 * p.2 := by
+  rw [arrayViaFunc_eq, unmaskedGrid_eq, List.map_map, Spec.slimPixels,
+    map_eq_zipIdx_map (Spec.unmaskedPixels m) 0, zipIdx_map_range _ (0, 0), zipIdx_map_range _ (0, 0)]
+  apply List.map_congr_left
+  intro k hk
+  have hk' : k < (Spec.unmaskedPixels m).length := by simpa using hk
+  simp only [Nat.zero_add, Function.comp]
+  exact cellMean_affine g _ _ c0 c1 c2 (hsub k hk')
+
+/-- (c) in particular the mean of a pixel's sub-centres is the pixel centre. -/
+theorem c_mean_of_subcentres_is_centre [CharZero α] (g : Geom α) (P : α × α) (s : Nat) (hs : s ≠ 0) :
+    ((Spec.subCentres g P s).map Prod.fst).sum / ((s * s : Nat) : α) = P.1
+    ∧ ((Spec.subCentres g P s).map Prod.snd).sum / ((s * s : Nat) : α) = P.2 := by
+  have h1 := cellMean_affine g P s 0 1 0 hs
+  have h2 := cellMean_affine g P s 0 0 1 hs
+  unfold Spec.cellMean at h1 h2
+  rw [foldl_add_eq_sum] at h1 h2
+  constructor
+  · simpa using h1
+  · simpa using h2
+
+/-- (c) `sub_pixel_areas` has one entry per sub-pixel and sums to the unmasked area
+    `N · s_y · s_x` (sub-size map with one entry ≥ 1 per unmasked pixel). -/
+theorem c_areas_sum [CharZero α] (m : Mask) (sub : List Nat) (g : Geom α)
+    (hlen : sub.length = (Spec.unmaskedPixels m).length) (hsub : ∀ s ∈ sub, s ≠ 0) :
+    (Impl.subPixelAreas sub g).sum = ((Spec.unmaskedPixels m).length : α) * (g.sy * g.sx)
+    ∧ (Impl.subPixelAreas sub g).length = (Impl.overSampledGrid m sub g).length := by
+  constructor
+  · rw [subPixelAreas_sum sub g hsub, hlen]
+  · rw [(a_grid_length_and_blocks m sub g).1, subPixelAreas_loop, ← hlen, offset_eq_offs]
+    exact flatMap_range_length _ _ (by intro k; simp) _
+
+end field
+
+/-! ## (d) the decorator -/
+section ordered
+variable {α : Type} [Field α] [LinearOrder α] [IsStrictOrderedRing α]
+
+omit [IsStrictOrderedRing α] in
+/-- (d) the decorator on a `Grid2D` built from the mask (`Grid2D.from_mask`, whose values are the
+    pixel centres) with uniform over-sampling — an int or a per-pixel array with entries ≥ 1 — returns,
+    for every user function, exactly the binned result `binned(f(over_sampled_grid))`; this includes
+    the branch where all sub-sizes are 1 and the code evaluates `f` on the grid itself. -/
+theorem d_decorated_from_mask (f : α × α → α) (m : Mask) (g : Geom α) (s : Impl.SubSpec)
+    (hlen : (s.expand (Spec.unmaskedPixels m).length).length = (Spec.unmaskedPixels m).length)
+    (hpos : ∀ x ∈ s.expand (Spec.unmaskedPixels m).length, 1 ≤ x) :
+    Impl.decorated f m g (Impl.unmaskedGrid m g) (.uniform s)
+      = Impl.arrayViaFunc f m (s.expand (Spec.unmaskedPixels m).length) g := by
+  unfold Impl.decorated
+  rw [totalPixels_eq]
+  cases s with
+  | int s =>
+    simp only [Impl.performOverSampling, Impl.SubSpec.expand]
+    by_cases h1 : s = 1
+    · subst h1
+      simp only [beq_self_eq_true, Bool.not_true, Bool.false_eq_true, if_false]
+      rw [arrayViaFunc_all_one]
+      intro k hk
+      simp [List.getD_eq_getElem?_getD, hk]
+    · simp [h1]
+  | arr l =>
+    simp only [Impl.performOverSampling, Impl.SubSpec.expand] at hlen hpos ⊢
+    by_cases h1 : l.foldl (· + ·) 0 = (Spec.unmaskedPixels m).length
+    · simp only [h1, beq_self_eq_true, Bool.not_true, Bool.false_eq_true, if_false]
+      rw [arrayViaFunc_all_one]
+      intro k hk
+      have hall := (sum_eq_length_iff_all_one l hpos).mp (by rw [h1, hlen])
+      have hk' : k < l.length := by omega
+      rw [List.getD_eq_getElem?_getD, List.getElem?_eq_getElem hk']
+      exact hall _ (List.getElem_mem hk')
+    · simp [h1]
+
+omit [IsStrictOrderedRing α] in
+/-- (d) for a `Grid2D` with arbitrary own values `gv` (at least one unmasked pixel): the code
+    evaluates `f` on the grid's own values exactly when every sub-size is 1, and otherwise returns
+    the binned over-sampled evaluation (which depends on the mask geometry only). -/
+theorem d_decorated_dispatch (f : α × α → α) (m : Mask) (g : Geom α) (gv : List (α × α))
+    (s : Impl.SubSpec) (hN : 0 < (Spec.unmaskedPixels m).length)
+    (hlen : (s.expand (Spec.unmaskedPixels m).length).length = (Spec.unmaskedPixels m).length)
+    (hpos : ∀ x ∈ s.expand (Spec.unmaskedPixels m).length, 1 ≤ x) :
+    Impl.decorated f m g gv (.uniform s)
+      = if ∀ x ∈ s.expand (Spec.unmaskedPixels m).length, x = 1 then gv.map f
+        else Impl.arrayViaFunc f m (s.expand (Spec.unmaskedPixels m).length) g := by
+  unfold Impl.decorated
+  rw [totalPixels_eq]
+  cases s with
+  | int s =>
+    simp only [Impl.performOverSampling, Impl.SubSpec.expand]
+    by_cases h1 : s = 1
+    · subst h1; simp
+    · have : ¬ ∀ x ∈ List.replicate (Spec.unmaskedPixels m).length s, x = 1 := by
+        intro h
+        exact h1 (h s (List.mem_replicate.mpr ⟨by omega, rfl⟩))
+      rw [if_neg this]
+      simp [h1]
+  | arr l =>
+    simp only [Impl.performOverSampling, Impl.SubSpec.expand] at hlen hpos ⊢
+    have hiff := sum_eq_length_iff_all_one l hpos
+    rw [hlen] at hiff
+    by_cases h1 : l.foldl (· + ·) 0 = (Spec.unmaskedPixels m).length
+    · rw [if_pos (hiff.mp h1)]
+      simp [h1]
+    · have : ¬ ∀ x ∈ l, x = 1 := fun h => h1 (hiff.mpr h)
+      rw [if_neg this]
+      simp [h1]
+
+omit [IsStrictOrderedRing α] in
+/-- (d) with `OverSamplingIterate` the decorator always hands over to the iterative scheme. -/
+theorem d_decorated_iterate (f : α × α → α) (m : Mask) (g : Geom α) (gv : List (α × α))
+    (fr rel : Option α) (steps : List Nat) :
+    Impl.decorated f m g gv (.iterate fr rel steps) = Impl.iterateViaFunc f m g fr rel steps := by
+  simp [Impl.decorated, Impl.performOverSampling]
+
+/-! ## (e) the iterative scheme -/
+
+omit [IsStrictOrderedRing α] in
+/-- (e) **array-level loop, any table.**  Let `v ℓ i` be any table of values (level `ℓ`, flat pixel
+    index `i`), and let the level array under a mask be the table with masked entries zeroed.  If the
+    level-0 values of the unmasked pixels are not all zero, the loop of
+    `OverSamplerIterate.array_via_func_from` (threshold masks shrinking level by level, early
+    `return` when a threshold mask is all `True`, final `iterated_array + array_higher_sub`) returns
+    at every in-frame index: 0 if masked, else `v ℓ* i` where `ℓ*` is the first level in `1 … n−1`
+    whose value agrees (`Spec.converged`) with the previous level's, and `n` (the last sub-size) if
+    there is none. -/
+theorem e_table_loop (fr rel : Option α) (h w : Nat) (v : Nat → Nat → α) (bits : List Bool) (n : Nat)
+    (hn : 1 ≤ n) (hnz : ¬ ∀ j, j < h * w → bits.getD j true = false → v 0 j = 0)
+    (j : Nat) (hj : j < h * w) :
+    (Impl.iterateNative fr rel h w bits (Impl.tableArray (h * w) v) n)[j]?
+      = some (if bits.getD j true then 0
+              else match (List.range' 1 (n - 1)).find?
+                      (fun l => Spec.converged fr rel (v (l - 1) j) (v l j)) with
+                   | some l => v l j
+                   | none => v n j) := by
+  rw [iterateNative_get fr rel h w v bits n add_zero zero_add hnz j hj,
+    chosenFrom_eq_iterValue _ _ _ hn]
+  rfl
+
+omit [LinearOrder α] [IsStrictOrderedRing α] in
+/-- (e) **a pixel's level value does not depend on the mask it is evaluated under**: the native
+    array `array_at_sub_size_from(mask=bits, sub_size=steps[ℓ−1])` (and the sub-size-1 evaluation for
+    `ℓ = 0`) is, for every mask `bits`, the table `ℓ, i ↦ levelValue(pixel i)` with masked entries
+    zeroed; `levelValue` is `f` at the centre for `ℓ = 0` and the mean of `f` over the `steps[ℓ−1]²`
+    sub-centres for `ℓ ≥ 1`. -/
+theorem e_level_array_is_masked_table (f : α × α → α) (h w : Nat) (g : Geom α) (steps : List Nat)
+    (l : Nat) (bits : List Bool) :
+    Impl.levelArray f h w g steps l bits
+      = Impl.tableArray (h * w)
+          (fun l i => Spec.levelValue f g steps (Spec.pixelCentre h w g (i / w, i % w)) l) l bits :=
+  levelArray_eq_tableArray f h w g steps l bits
+
+omit [IsStrictOrderedRing α] in
+/-- (e) **the iterative scheme, every user function.**  For every mask, geometry, function,
+    thresholds and non-empty schedule `steps` (length `n`), if the sub-size-1 evaluation is not zero
+    at every unmasked pixel centre: the returned slim array holds, for each unmasked pixel, the binned
+    value at the first sub-size of the schedule (levels `1 … n−1`) whose agreement with the previous
+    level meets the thresholds, otherwise the value at the last sub-size. -/
+theorem e_iterate_first_agreeing_level (f : α × α → α) (m : Mask) (g : Geom α) (fr rel : Option α)
+    (steps : List Nat) (hn : steps ≠ [])
+    (hnz : ¬ ∀ p ∈ Spec.unmaskedPixels m, f (Spec.pixelCentre m.h m.w g p) = 0) :
+    Impl.iterateViaFunc f m g fr rel steps
+      = (Spec.unmaskedPixels m).map fun p =>
+          let v : Nat → α := Spec.levelValue f g steps (Spec.pixelCentre m.h m.w g p)
+          match (List.range' 1 (steps.length - 1)).find?
+              (fun l => Spec.converged fr rel (v (l - 1)) (v l)) with
+          | some l => v l
+          | none => v steps.length :=
+  iterateViaFunc_eq f m g fr rel steps hn hnz
+
+omit [IsStrictOrderedRing α] in
+/-- (e, separate clause) the early return: when the function is zero at every unmasked pixel
+    centre the code returns the sub-size-1 array — all zeros — without looking at any sub-grid. -/
+theorem e_early_return (f : α × α → α) (m : Mask) (g : Geom α) (fr rel : Option α)
+    (steps : List Nat) (hz : ∀ p ∈ Spec.unmaskedPixels m, f (Spec.pixelCentre m.h m.w g p) = 0) :
+    Impl.iterateViaFunc f m g fr rel steps = List.replicate (Spec.unmaskedPixels m).length 0 :=
+  iterateViaFunc_all_zero f m g fr rel steps hz
+
+/-- (e) **the agreement rule in the property's words.**  For a positive fractional-accuracy
+    threshold `t` and an optional absolute tolerance: the previous value `lo` and the current value
+    `hi` agree iff both are positive (the ratio is only defined for a positive previous value, and a
+    non-positive current value never agrees), the ratio of the smaller to the larger is at least `t`,
+    and, if the tolerance `r` is set, `|lo − hi| ≤ r`. -/
+theorem e_agreement_rule (t : α) (ht : 0 < t) (rel : Option α) (lo hi : α) :
+    Spec.converged (some t) rel lo hi = true
+      ↔ (0 < lo ∧ 0 < hi ∧ t ≤ min lo hi / max lo hi) ∧ (∀ r, rel = some r → |lo - hi| ≤ r) :=
+  converged_iff t ht rel lo hi
+
+end ordered
+
+/-! ## witnesses and non-vacuity (exact rationals, evaluated by the kernel) -/
+
+/-- (e, witness for known finding D15) the early return departs from the stopping rule: on the 1×1
+    mask with unit pixel at the origin, `f(y,x) = y²` is zero at the pixel centre, so the code returns
+    `[0]`, whereas the value at the last (only) sub-size 2 of the schedule is `1/16`. -/
+theorem e_early_return_departs_from_rule_witness :
+    let m : Mask := ⟨1, 1, [false]⟩
+    let g : Geom Rat := ⟨1, 1, 0, 0⟩
+    let f : Rat × Rat → Rat := fun p => p.1 * p.1
+    Impl.iterateViaFunc f m g (some (1 / 2)) none [2] = [0]
+    ∧ Spec.levelValue f g [2] (Spec.pixelCentre 1 1 g (0, 0)) 1 = 1 / 16 := by
+  decide +kernel
+
+/-- non-vacuity of (a)–(d): a 2×3 mask with a masked pixel between unmasked ones, anisotropic scales,
+    off-origin, per-pixel sub-sizes 1, 2, 3, 2. -/
+example :
+    let m : Mask := ⟨2, 3, [false, true, false, true, false, false]⟩
+    let g : Geom Rat := ⟨1 / 2, 2, 1 / 4, -1⟩
+    let sub := [1, 2, 3, 2]
+    (Impl.overSampledGrid m sub g).take 5
+        = [(1 / 2, -3), (5 / 8, 1 / 2), (5 / 8, 3 / 2), (3 / 8, 1 / 2), (3 / 8, 3 / 2)]
+    ∧ Impl.slimForSubSlim m sub = [0, 1, 1, 1, 1, 2, 2, 2, 2, 2, 2, 2, 2, 2, 3, 3, 3, 3]
+    ∧ Impl.binned m sub ((List.range 18).map fun i => (i : Rat)) = [0, 5 / 2, 9, 31 / 2]
+    ∧ Impl.arrayViaFunc (fun p => 1 + 2 * p.1 - 3 * p.2) m sub g
+        = (Impl.unmaskedGrid m g).map (fun p => 1 + 2 * p.1 - 3 * p.2)
+    ∧ Impl.decorated (fun p => p.1 * p.2) m g (Impl.unmaskedGrid m g) (.uniform (.arr [1, 1, 1, 1]))
+        = (Impl.unmaskedGrid m g).map (fun p => p.1 * p.2) := by
+  decide +kernel
+
+/-- non-vacuity of (e): hypotheses of `e_iterate_first_agreeing_level` hold (level 0 not all zero,
+    non-empty schedule) and the three pixels stop at different levels of the schedule [2, 4, 8]:
+    `f = 1/(1/16 + y² + x²)` on a 1×3 row with unit pixels; with threshold 0.97 the outer pixels
+    agree at level 1 resp. 2 and the central pixel runs to the last level. -/
+example :
+    let m : Mask := ⟨1, 3, [false, false, false]⟩
+    let g : Geom Rat := ⟨1, 1, 0, 1 / 2⟩
+    let f : Rat × Rat → Rat := fun p => 1 / (1 / 16 + p.1 * p.1 + p.2 * p.2)
+    let r := Impl.iterateViaFunc f m g (some (97 / 100)) none [2, 4, 8]
+    ¬ (∀ p ∈ Spec.unmaskedPixels m, f (Spec.pixelCentre m.h m.w g p) = 0)
+    ∧ r.length = 3
+    ∧ r = (Spec.unmaskedPixels m).map fun p =>
+          Spec.iterValue (Spec.converged (some (97 / 100)) none)
+            (Spec.levelValue f g [2, 4, 8] (Spec.pixelCentre m.h m.w g p)) 3 := by
+  decide +kernel
 
 end C09
